@@ -456,6 +456,24 @@ def run(prog, rep, tier):
     if n1912 < 6:
         raise CheckerError("R19.12: only %d lifted instances" % n1912)
 
+    # ------------------------------------------------------------ R19.13 every counter is printed under its own label
+    # The summary's text says which counter a number is ("lines", "syslines", "Printed bytes").  Where a
+    # label is literally the name of a counter field of SummaryPrinted, the statements that follow it (up
+    # to the next labelled print) read that field and no other counter.  Format templates are decoded
+    # from the const-evaluated byte strings of format_args! (fmtlabel.py).
+    import fmtlabel
+    R1913 = rep.rule("R19.13", "a summary label that names a counter is followed by the value of that counter")
+    n1913 = 0
+    for p_ in ("s4lib::printer::summary::SummaryPrinted::print_colored_stderr", "s4lib::printer::summary::print_summary"):
+        for r_ in fmtlabel.check(prog, p_, "s4lib::printer::summary::SummaryPrinted"):
+            n1913 += 1
+            rep.examined(R1913, "%s|%s#%d" % (p_, r_["label"], n1913), sample=r_)
+            if not r_["ok"]:
+                rep.violation(R1913, "%s|label-%s|shows-%s" % (p_, r_["label"], "+".join(r_["counters_read_next"]) or "nothing"), "%s (line %s): the label '%s' is followed by the value of %s; the summary then reports one counter under the name of another "
+                              "(per-file 'syslines' showing the line count differs from the messages actually printed as soon as a message has continuation lines)" % (p_.split("::")[-1], r_["line"], r_["template"], r_["counters_read_next"] or "no counter"))
+    if n1913 < 5:
+        raise CheckerError("R19.13: only %d counter labels decoded from the summary printers (format template encoding changed?)" % n1913)
+
     return rep.finish(
         "Static necessary-condition check of the summary bookkeeping: the four per-kind updaters write bytes/flushed/lines/own counter/datetimes "
         "alike; in every message arm the per-file and total updaters receive exactly the print call's returned (printed, flushed); every direct "
